@@ -101,6 +101,7 @@ func cmdWorker(args []string) int {
 			defer f.Close()
 		}
 	}
+	startWatchdog(c, *tier == "thorough")
 	if p.SelfTest != nil {
 		if err := p.SelfTest(); err != nil {
 			rep.SelfTestFail = err.Error()
@@ -115,6 +116,43 @@ func cmdWorker(args []string) int {
 		return 2
 	}
 	return 0
+}
+
+// startWatchdog protects the machine and the run from a library that loops or
+// allocates without bound inside a single call (where no monitor gets control
+// back): the worker exits with a distinctive status when its heap passes a
+// limit or when one case makes no progress for a long time. The driver then
+// re-runs the shard in trace mode to pin the case (kind crash / hang).
+func startWatchdog(c *Ctx, thorough bool) {
+	limitMB := int64(6144)
+	if v, err := strconv.ParseInt(os.Getenv("VERIF_MEM_LIMIT_MB"), 10, 64); err == nil && v > 0 {
+		limitMB = v
+	}
+	stall := 5 * time.Minute
+	if thorough {
+		stall = 15 * time.Minute
+	}
+	go func() {
+		last := int64(-2)
+		lastChange := time.Now()
+		var ms runtime.MemStats
+		for {
+			time.Sleep(100 * time.Millisecond)
+			runtime.ReadMemStats(&ms)
+			if int64(ms.HeapAlloc>>20) > limitMB || int64(ms.StackInuse>>20) > limitMB {
+				fmt.Fprintf(os.Stderr, "WATCHDOG: memory limit exceeded (heap %d MiB, stacks %d MiB, limit %d MiB) while running case %d\n",
+					ms.HeapAlloc>>20, ms.StackInuse>>20, limitMB, c.curCase.Load())
+				os.Exit(3)
+			}
+			cur := c.curCase.Load()
+			if cur != last {
+				last, lastChange = cur, time.Now()
+			} else if time.Since(lastChange) > stall {
+				fmt.Fprintf(os.Stderr, "WATCHDOG: case %d made no progress for %v\n", cur, stall)
+				os.Exit(4)
+			}
+		}
+	}()
 }
 
 func writeReport(path string, rep *Report, digests map[uint64]struct{}) error {
@@ -237,7 +275,7 @@ func (e *runEnv) runJob(j job) jobResult {
 	}
 	res.crash = &Violation{Property: e.prop.ID, Unit: j.unit.Name, Index: idx, Kind: kind,
 		Message: fmt.Sprintf("worker died (%s) while running case %d; log tail:\n%s", kind, idx, logtail2),
-		Seed: e.seed, Tier: e.tier}
+		Seed:    e.seed, Tier: e.tier}
 	return res
 }
 
@@ -260,6 +298,9 @@ func (e *runEnv) attempt(j job, base, trace string, timeout time.Duration) (*Rep
 	runErr := cmd.Run()
 	logf.Close()
 	timedOut := ctx.Err() == context.DeadlineExceeded
+	if ee, ok := runErr.(*exec.ExitError); ok && ee.ExitCode() == 4 {
+		timedOut = true // stalled case, see startWatchdog
+	}
 	b, rerr := os.ReadFile(out)
 	if rerr == nil && runErr == nil {
 		rep := &Report{}
